@@ -268,6 +268,7 @@ func (h *HttpServer) handleStreamInit(w http.ResponseWriter, r *http.Request) {
 	if info.HasHeader && streamResult.Header != nil {
 		initLogs := callCtx.drainLogs()
 		if err := h.server.writeStreamHeader(&buf, streamResult.Header, initLogs); err != nil {
+			handlerErr = err // reported to the dispatch hook's end callback
 			h.writeHttpError(w, http.StatusInternalServerError, err, nil)
 			return
 		}
@@ -311,11 +312,13 @@ func (h *HttpServer) handleStreamInit(w http.ResponseWriter, r *http.Request) {
 		// Exchange init — return state token (carry schema for dynamic methods)
 		token, err := h.packCursorToken(callID, state, auth)
 		if err != nil {
+			handlerErr = err
 			h.writeHttpError(w, http.StatusInternalServerError, err, nil)
 			return
 		}
 		callToken, err := h.packCallToken(callID, outputSchema, auth, streamID)
 		if err != nil {
+			handlerErr = err
 			h.writeHttpError(w, http.StatusInternalServerError, err, nil)
 			return
 		}
@@ -562,8 +565,8 @@ func (h *HttpServer) handleStreamExchange(w http.ResponseWriter, r *http.Request
 		var schemaErr error
 		outputSchema, schemaErr = deserializeSchema(call.SchemaIPC)
 		if schemaErr != nil {
-			h.writeHttpError(w, http.StatusBadRequest,
-				&RpcError{Type: "RuntimeError", Message: fmt.Sprintf("failed to recover output schema: %v", schemaErr)}, nil)
+			handlerErr = &RpcError{Type: "RuntimeError", Message: fmt.Sprintf("failed to recover output schema: %v", schemaErr)}
+			h.writeHttpError(w, http.StatusBadRequest, handlerErr, nil)
 			return
 		}
 	} else {
